@@ -5,7 +5,20 @@ supervising check (a hang inside a C extension cannot be interrupted by a signal
 import sys, json, importlib, traceback, os, warnings
 
 
+def die_with_parent():
+    """a worker stuck inside a non-terminating implementation call must not outlive the check that started it (e.g. when the check
+    itself is killed by a timeout): ask the kernel to SIGKILL this process when its parent goes away"""
+    try:
+        import ctypes, signal
+        ctypes.CDLL("libc.so.6", use_errno=True).prctl(1, signal.SIGKILL)      # PR_SET_PDEATHSIG
+        if os.getppid() == 1:
+            os._exit(0)
+    except Exception:  # noqa
+        pass
+
+
 def main():
+    die_with_parent()
     warnings.filterwarnings("ignore")
     from harness import cov
     cov.start()
